@@ -166,7 +166,7 @@ func (r *Registry) GetCounter(metricName string, labels prometheus.Labels, help 
 		return nil, fmt.Errorf("metric with name %s is already registered", metricName)
 	}
 
-	err := r.checkHistogramNameCollision(metricName)
+	err := r.checkNameCollision(metricName, metrics.CounterMetricType)
 	if err != nil {
 		return nil, err
 	}
@@ -195,11 +195,29 @@ func (r *Registry) GetCounter(metricName string, labels prometheus.Labels, help 
 	return counter, nil
 }
 
-func (r *Registry) checkHistogramNameCollision(metricName string) error {
+// checkNameCollision reports an error if creating metricName with the given type
+// would collide with the _bucket, _count and _sum series of a histogram or
+// summary, in either direction: the client library refuses to gather both.
+func (r *Registry) checkNameCollision(metricName string, metricType metrics.MetricType) error {
 	histogramSuffixes := []string{"_bucket", "_count", "_sum"}
 	for _, suffix := range histogramSuffixes {
 		if strings.HasSuffix(metricName, suffix) {
-			if r.MetricConflicts(strings.TrimSuffix(metricName, suffix), metrics.CounterMetricType) {
+			base, hasBase := r.Metrics[strings.TrimSuffix(metricName, suffix)]
+			if !hasBase {
+				continue
+			}
+			if base.MetricType == metrics.HistogramMetricType ||
+				(base.MetricType == metrics.SummaryMetricType && suffix != "_bucket") {
+				return fmt.Errorf("metric with name %s is already registered", metricName)
+			}
+		}
+	}
+	if metricType == metrics.HistogramMetricType || metricType == metrics.SummaryMetricType {
+		for _, suffix := range histogramSuffixes {
+			if suffix == "_bucket" && metricType != metrics.HistogramMetricType {
+				continue
+			}
+			if _, exists := r.Metrics[metricName+suffix]; exists {
 				return fmt.Errorf("metric with name %s is already registered", metricName)
 			}
 		}
@@ -218,7 +236,7 @@ func (r *Registry) GetGauge(metricName string, labels prometheus.Labels, help st
 		return nil, fmt.Errorf("metrics.Metric with name %s is already registered", metricName)
 	}
 
-	err := r.checkHistogramNameCollision(metricName)
+	err := r.checkNameCollision(metricName, metrics.GaugeMetricType)
 	if err != nil {
 		return nil, fmt.Errorf("metrics.Metric with name %s is already registered", metricName)
 	}
@@ -257,13 +275,7 @@ func (r *Registry) GetHistogram(metricName string, labels prometheus.Labels, hel
 	if r.MetricConflicts(metricName, metrics.HistogramMetricType) {
 		return nil, fmt.Errorf("metrics.Metric with name %s is already registered", metricName)
 	}
-	if r.MetricConflicts(metricName+"_sum", metrics.HistogramMetricType) {
-		return nil, fmt.Errorf("metrics.Metric with name %s is already registered", metricName)
-	}
-	if r.MetricConflicts(metricName+"_count", metrics.HistogramMetricType) {
-		return nil, fmt.Errorf("metrics.Metric with name %s is already registered", metricName)
-	}
-	if r.MetricConflicts(metricName+"_bucket", metrics.HistogramMetricType) {
+	if err := r.checkNameCollision(metricName, metrics.HistogramMetricType); err != nil {
 		return nil, fmt.Errorf("metrics.Metric with name %s is already registered", metricName)
 	}
 
@@ -319,10 +331,7 @@ func (r *Registry) GetSummary(metricName string, labels prometheus.Labels, help 
 	if r.MetricConflicts(metricName, metrics.SummaryMetricType) {
 		return nil, fmt.Errorf("metrics.Metric with name %s is already registered", metricName)
 	}
-	if r.MetricConflicts(metricName+"_sum", metrics.SummaryMetricType) {
-		return nil, fmt.Errorf("metrics.Metric with name %s is already registered", metricName)
-	}
-	if r.MetricConflicts(metricName+"_count", metrics.SummaryMetricType) {
+	if err := r.checkNameCollision(metricName, metrics.SummaryMetricType); err != nil {
 		return nil, fmt.Errorf("metrics.Metric with name %s is already registered", metricName)
 	}
 
